@@ -2,6 +2,7 @@ import LruMem.Model.Step
 import LruMem.Model.MemSize
 import LruMem.Model.Ptr
 import LruMem.Model.Panic
+import LruMem.Model.PanicB
 /-!
 # `lrudriver`: replays the harness's operation lines on the Level A model
 
@@ -313,12 +314,14 @@ def processLine (s : St) (line : String) : St × String :=
           else
             match pk with
             | some (kind, n) =>
-              let (_, r) := pickOracle (fun o => stepP s.p c op o kind n) c.shape.items ocap obk allocOk
+              let (o, r) := pickOracle (fun o => stepP s.p c op o kind n) c.shape.items ocap obk allocOk
+              -- Level B follows the panic: the pointer structure at the abort point (`Model/PanicB.lean`)
+              let cb' := cb.map fun b => compactB (stepPB s.p b op o kind n)
+              let lb := match cb' with | some b => lbStr r.cache b | none => "ok"
               if r.status == .userPanic then
-                -- the pointer model does not follow user panics: Level B tracking ends here
-                (s.set i (some (r.cache, none)), resLine s.p full true r (some r.cache))
+                (s.set i (some (r.cache, cb')), resLine s.p full true r (some r.cache) lb)
               else
-                (s.set i (some (r.cache, none)), resLine s.p full (isSortedOp op) r (some r.cache))
+                (s.set i (some (r.cache, cb')), resLine s.p full (isSortedOp op) r (some r.cache) lb)
             | none =>
               let (o, r) := pickOracle (step s.p c op) c.shape.items ocap obk allocOk
               let cb' := cb.map fun b => compactB (stepB s.p b op o)
